@@ -114,25 +114,25 @@ fn expected(
 /// prefer_shifts_over_empty, nops, nopse are symbolic.  (A first version with every scalar symbolic over its whole type
 /// exhausted 30 GB in CBMC: Vec::retain/partition on a vector whose length depends on a symbolic branch.)
 #[kani::proof]
-#[kani::unwind(10)]
+#[kani::unwind(5)]
 fn c5_shift_only() { conflict_shape(true, false, 0) }
 #[kani::proof]
-#[kani::unwind(10)]
+#[kani::unwind(5)]
 fn c5_accept_only() { conflict_shape(true, true, 0) }
 #[kani::proof]
-#[kani::unwind(10)]
+#[kani::unwind(5)]
 fn c5_shift_red() { conflict_shape(true, false, 1) }
 #[kani::proof]
-#[kani::unwind(10)]
+#[kani::unwind(5)]
 fn c5_accept_red() { conflict_shape(true, true, 1) }
 #[kani::proof]
-#[kani::unwind(10)]
+#[kani::unwind(5)]
 fn c5_red_only() { conflict_shape(false, false, 1) }
 #[kani::proof]
-#[kani::unwind(10)]
+#[kani::unwind(5)]
 fn c5_two_reds() { conflict_shape(false, false, 2) }
 #[kani::proof]
-#[kani::unwind(10)]
+#[kani::unwind(5)]
 fn c5_shift_two_reds() { conflict_shape(true, false, 2) }
 
 fn assoc_of(a: u8) -> Associativity {
@@ -141,15 +141,13 @@ fn assoc_of(a: u8) -> Associativity {
 
 fn conflict_shape(has_shift: bool, accept: bool, nred: usize) {
     let prios: [u32; 3] = [9, 10, 11];
-    // (production assoc, terminal assoc)
-    let all_pairs: [(u8, u8); 9] = [(0, 0), (1, 0), (2, 0), (0, 1), (1, 1), (2, 1), (0, 2), (1, 2), (2, 2)];
-    let npairs = if !has_shift { 1 } else if nred == 0 { 9 } else { 5 };
-    let some_pairs: [(u8, u8); 9] = [(0, 0), (1, 0), (2, 0), (2, 1), (1, 2), (0, 0), (0, 0), (0, 0), (0, 0)];
     // one grammar per harness; the scalar attributes are set per case
     let mk = |idx: usize| Production { idx: ProdIndex(idx), nonterminal: NonTermIndex(0), rhs: vec![mk_assignment(1)], ..Production::default() };
     let terms = vec![Terminal { idx: TermIndex(0), ..Default::default() }, Terminal { idx: TermIndex(1), ..Default::default() }];
     let mut grammar = mk_grammar(vec![mk(0), mk(1), mk(2), mk(NEW)], terms);
     let mut settings = base_settings(None, None);
+    // every loop below has at most three iterations, so that a small global unwind bound also covers them
+    let npa = if !has_shift { 1 } else { 3 };
     let mut ip = 0;
     while ip < 3 {
         let mut i1 = 0;
@@ -157,15 +155,34 @@ fn conflict_shape(has_shift: bool, accept: bool, nred: usize) {
             let mut i2 = 0;
             while i2 < (if nred >= 2 { 3 } else { 1 }) {
                 let mut ia = 0;
-                while ia < npairs {
-                    let (pa, ta) = if nred == 0 { all_pairs[ia] } else { some_pairs[ia] };
-                    let mut bits = 0u8; // empty, lr, l1, l2
-                    while bits < 16 {
-                        let (empty, lr, l1, l2) = (bits & 1 != 0, bits & 2 != 0, ((bits >> 2) & 1) as usize, ((bits >> 3) & 1) as usize);
-                        if (nred >= 1 || l1 == 0) && (nred >= 2 || l2 == 0) {
-                            conflict_case(&mut grammar, &mut settings, has_shift, accept, nred, prios[ip], 10, [prios[i1], prios[i2]], pa, ta, empty, lr, l1, l2);
+                while ia < npa {
+                    let mut ib = 0;
+                    while ib < npa {
+                        // (production assoc, terminal assoc): all nine pairs for the pure shift/reduce shapes; with earlier
+                        // reductions present the five pairs none/none, left/none, right/none, right/left, left/right
+                        let (pa, ta) = (ia as u8, ib as u8);
+                        let wanted = nred == 0 || ta == 0 || (pa == 2 && ta == 1) || (pa == 1 && ta == 2);
+                        if wanted {
+                            let mut e = 0;
+                            while e < 2 {
+                                let mut l = 0;
+                                while l < 2 {
+                                    let mut a1 = 0;
+                                    while a1 < (if nred >= 1 { 2 } else { 1 }) {
+                                        let mut a2 = 0;
+                                        while a2 < (if nred >= 2 { 2 } else { 1 }) {
+                                            conflict_case(&mut grammar, &mut settings, has_shift, accept, nred, prios[ip], 10,
+                                                          [prios[i1], prios[i2]], pa, ta, e == 1, l == 1, a1, a2);
+                                            a2 += 1;
+                                        }
+                                        a1 += 1;
+                                    }
+                                    l += 1;
+                                }
+                                e += 1;
+                            }
                         }
-                        bits += 1;
+                        ib += 1;
                     }
                     ia += 1;
                 }
